@@ -1,26 +1,25 @@
 #!/bin/bash
-# final_verify.sh [thorough]: phase 1 - every property-preserving refactoring against the checks that drive the
-# code it touches (3 shards; NEUTRAL_ARGS=--relevant, empty for all x all) and, if asked, the thorough tier of
-# every check on the clean tree; phase 2 - every seeded change and reverted fix against the check of its own
-# property (4 shards).  Everything on scratch clones.
+# final_verify.sh: phase 1 - every property-preserving refactoring against the checks that drive the code it
+# touches (4 shards; NEUTRAL_ARGS=--relevant, empty for all x all); phase 2 - the thorough tier of every check
+# on the clean tree; phase 3 - every seeded change and reverted fix against the check of its own property
+# (4 shards).  Everything on scratch clones.
 cd "$(dirname "$0")/.."
 mkdir -p findings/final
 NEUTRAL_ARGS=${NEUTRAL_ARGS---relevant}
-for i in 0 1 2; do
-  python3 tools/neutral.py $NEUTRAL_ARGS --shard $i/3 --out findings/final/neutral$i.json > findings/final/neutral$i.log 2>&1 &
+for i in 0 1 2 3; do
+  python3 tools/neutral.py $NEUTRAL_ARGS --shard $i/4 --out findings/final/neutral$i.json > findings/final/neutral$i.log 2>&1 &
 done
-if [ "$1" = "thorough" ]; then
-  bash tools/runall.sh thorough > findings/final/thorough.log 2>&1 &
-fi
 wait
 echo "== does not apply"; grep -h "DOES NOT APPLY" findings/final/*.log
 echo "== alarms"; grep -h "ALARM" -A1 findings/final/neutral*.log
-echo "== thorough"; cat findings/final/thorough.log 2>/dev/null | cut -c1-200
-echo "== phase 1 done"
+echo "== phase 1 done $(date)"
+bash tools/runall.sh thorough > findings/final/thorough.log 2>&1
+echo "== thorough"; cat findings/final/thorough.log | cut -c1-200
+echo "== phase 2 done $(date)"
 for i in 0 1 2 3; do
   python3 tools/matrix.py --checks own --shard $i/4 --out findings/final/matrix$i.json > findings/final/matrix$i.log 2>&1 &
 done
 wait
 echo "== missed"; grep -h "missed" findings/final/matrix*.log
 echo "== does not apply"; grep -h "DOES NOT APPLY" findings/final/matrix*.log
-echo "== done"
+echo "== done $(date)"
